@@ -195,6 +195,7 @@ class Exec:
         self.loops = R.loops_of(self.f.body)
         self.ncall = 0
         self.opaque = set()        # functions of the unit that are NOT followed (entry mode: the kernels)
+        self._rot, self._orig, self._keep = {}, {}, []      # bottom-tested loops read as top-tested ones (see _rotated)
         self.fn_names = set(getattr(self.f, "locals", ())) | {p[0] for p in self.f.params}
         self.frozen = {p[0] for p in self.f.params} - R.assigned_vars(self.f.body)     # parameters that keep their value throughout
         self.lengths = {}          # array base -> Aff: its number of elements (allocations; the input array when `array_len` names the length parameter)
@@ -819,6 +820,9 @@ class Exec:
             p.env[s[1]] = ("unknown",)
             return nxt(p)
         if k == "if":
+            rot = self._rotated(s, p)
+            if rot is not None:
+                return self.loop(rot, p, nxt, K)
             K2 = dict(K, fall=nxt)
             return self.branch(s[1], p, lambda q: self.block(s[2], q, K2), lambda q: self.block(s[3], q, K2))
         if k == "break":
@@ -1049,13 +1053,78 @@ class Exec:
         p.subst[var] = val
 
     # ---- loops and cut points
+    def _rotated(self, s, p):
+        """`if (g) do { B } while (c);`  (C; or Python's `if g:  while True: B; if not c: break`)  is  `while (c) { B }`  when g and c have the same
+        value in the state the `if` is reached in: the guarded bottom-tested loop is read as the top-tested loop it is.  Statements between B and
+        the test (`++k` of `while (++k < j)`) become the loop's step.  Returns the top-tested loop statement, or None."""
+        if s[3] or len(s[2]) != 1 or s[2][0][0] != "loop" or s[2][0][1] is not None:
+            return None
+        lp = s[2][0]
+        if id(lp) in self._rot:
+            cand = self._rot[id(lp)]
+        else:
+            body, step = list(lp[2]), list(lp[3])
+
+            def split(stmts):
+                """(statements before, condition to go on) of a tail `...; if c: pass else: break` / `...; if not_c: break`"""
+                if not stmts or stmts[-1][0] != "if":
+                    return None
+                t = stmts[-1]
+                if t[2] == [] and t[3] == [("break",)]:
+                    c = t[1]
+                elif t[2] == [("break",)] and t[3] == []:
+                    c = ("not", t[1])
+                else:
+                    return None
+                return stmts[:-1], c
+            cand = None
+            if step:
+                sp = split(step)
+                if sp is not None and all(x[0] == "set" and x[1][0] == "var" for x in sp[0]):
+                    cand = ("loop", sp[1], body, sp[0])
+            else:
+                sp = split(body)
+                if sp is not None and not any(x[0] in ("continue",) for x in R.walk_ir(sp[0]) ):
+                    cand = ("loop", sp[1], sp[0], [])
+            if cand is not None and any(x[0] == "break" for x in R.walk_ir([y for y in cand[3]])):
+                cand = None
+            self._rot[id(lp)] = cand
+            if cand is not None:
+                self._keep.append(cand)
+        if cand is None:
+            return None
+        try:
+            g, c = self._test_value(s[1], p), self._test_value(cand[1], p)
+        except Unsupported:
+            return None
+        if g is None or g != c:
+            return None
+        self.loop_ids[id(cand)] = self.loop_ids.get(id(lp))
+        self._orig[id(cand)] = lp
+        return cand
+
+    def _test_value(self, c, p, neg=False):
+        """('ige', d) for a side-effect-free integer order test (or its negation) in the current state; None for anything else"""
+        if c[0] == "not":
+            return self._test_value(c[1], p, not neg)
+        if c[0] != "cmp":
+            return None
+        v = self.ev(c, p)
+        if v[0] != "cmp" or v[1] not in ("<", "<=") or not (self.is_int(v[2]) and self.is_int(v[3])):
+            return None
+        a, b = self.aff(v[2]), self.aff(v[3])
+        if a is None or b is None:
+            return None
+        d = b - a - (1 if v[1] == "<" else 0)           # the test is d >= 0
+        return ("ige", aff_ir(-d - 1 if neg else d))
+
     def loop(self, s, p, nxt, K):
         lid = self.loop_ids.get(id(s))
         if lid is None:
             raise Unsupported("loop inside a helper function")
         node = lid
         tops = [x for x, depth, parent in self.loops if depth == 0]
-        if tops and s is tops[-1]:
+        if tops and self._orig.get(id(s), s) is tops[-1]:
             # the code after the last top-level loop (release of the buffers, slicing, return) is its own unit: cut point EPI
             after = nxt
             nxt = lambda q: self.arrive(EPI, ("loop", None, [], []), q, after)     # noqa: E731
